@@ -20,6 +20,9 @@ from ..absint import (Interp, Frame, State, SelfV, Vec, Rng, Arr, Tup, K, Opq, L
                       as_lin_val, _veq, _facts_meet)
 from ..index import AnalysisError, ClassInfo, dotted
 from .. import astq
+from .. import absint as _absint
+
+_EngineAlwaysRaises = getattr(_absint, "AlwaysRaises", None) or type("_NoEngineAlwaysRaises", (Exception,), {})
 
 FH_PATH = "sktime/forecasting/base/_fh.py"
 
@@ -140,12 +143,15 @@ class AllV(Cnt):
         return "all%r" % (self.mask,)
 
 
-class AlwaysRaises(Exception):
-    """An inlined callee raises on every path: the calling trace ends in that exception."""
+class AlwaysRaises(_EngineAlwaysRaises):
+    """An inlined callee raises on every path: the calling trace ends in that exception.
+    ``node`` is the last explicit ``raise`` reached, ``sure`` says that every raising trace of the callee ended at
+    an explicit ``raise`` whose enclosing conditions were all *decided* (not assumed by trace splitting)."""
 
-    def __init__(self, node, what):
+    def __init__(self, node, what, sure=False):
         Exception.__init__(self, what)
         self.node = node
+        self.sure = sure
 
 
 class SymV:
@@ -210,6 +216,8 @@ class FHInterp(Interp):
         self.events = []  # property-specific log, filled by extra hooks
         self._keying = set()
         self.last_raise = None
+        self._raise_log = [[]]  # per interpreted function: (raise node or None, sure?) of every raising trace
+        self._acc = []  # per enclosing for-loop: {list name: (appended value, iterable, unconditional?)}
 
     # ------------------------------------------------------------------ objects
     def is_fh(self, v):
@@ -232,13 +240,15 @@ class FHInterp(Interp):
             return Opq("depth-limit:" + fn.name)
         sub = Frame(module, fn, cls, defcls, frame.depth + 1)
         self.callstack.append((frame.func, callnode))
+        self._raise_log.append([])
         try:
             traces, fst = self.run_function(sub, bound, st)
         finally:
             self.callstack.pop()
+            log = self._raise_log.pop()
         normal = [(s, o[1] if o[0] == "return" else K(None)) for s, o in traces if o[0] in ("return", "fall")]
         if not normal:
-            raise AlwaysRaises(self.last_raise, fn.name)
+            raise AlwaysRaises(log[-1][0] if log else None, fn.name, bool(log) and all(f for _, f in log))
         groups = []
         for s, v in normal:
             for g in groups:
@@ -254,12 +264,19 @@ class FHInterp(Interp):
 
     def inline_call(self, e, fname, args, kwargs, st, frame):
         self.callstack.append((frame.func, e))
+        self._raise_log.append([])
         try:
             r = Interp.inline_call(self, e, fname, args, kwargs, st, frame)
+        except AlwaysRaises:
+            raise
+        except _EngineAlwaysRaises as exc:  # the engine noticed that the callee raises on every trace
+            log = self._raise_log[-1]
+            raise AlwaysRaises(log[-1][0] if log else None, str(exc), bool(log) and all(f for _, f in log))
         finally:
             self.callstack.pop()
-        if isinstance(r, Opq) and r.tag.startswith("never-returns:"):
-            raise AlwaysRaises(self.last_raise, r.tag[14:])
+            log = self._raise_log.pop()
+        if isinstance(r, Opq) and r.tag.startswith("never-returns:"):  # older engine
+            raise AlwaysRaises(log[-1][0] if log else None, r.tag[14:], bool(log) and all(f for _, f in log))
         return r
 
     def instantiate(self, cls, args, kwargs, st, frame, callnode=None):
@@ -299,7 +316,26 @@ class FHInterp(Interp):
         try:
             return self._stmt(node, st, frame)
         except AlwaysRaises as exc:
-            return [(st, ("raise", exc.node))]
+            inner = exc.sure and exc.node is not None
+            sure = inner and self.guards_decided(node, st, frame)
+            self._raise_log[-1].append((exc.node, sure))
+            return [(st, ("raise", exc.node, sure, inner))]
+        except _EngineAlwaysRaises:
+            self._raise_log[-1].append((None, False))
+            return [(st, ("raise", None, False))]
+
+    def guards_decided(self, node, st, frame):
+        """Every ``if`` / loop enclosing ``node`` in the current function was *decided* on this trace (from constants,
+        the scenario, the run-time-type lattice or integer facts) -- none was merely assumed by splitting the trace."""
+        for outer in astq.enclosing_stmts(frame.func, node)[:-1]:
+            if isinstance(outer, ast.If):
+                if self.atom_key(outer.test, st, frame) in st.atoms:
+                    return False
+                if self.decide(outer.test, st, frame) is None:
+                    return False
+            elif isinstance(outer, (ast.For, ast.While, ast.Try, ast.With)):
+                return False
+        return True
 
     def _is(self, a, b):
         for x, y in ((a, b), (b, a)):
@@ -310,7 +346,9 @@ class FHInterp(Interp):
     def _stmt(self, node, st, frame):
         if isinstance(node, ast.Raise):
             self.last_raise = node
-            return [(st, ("raise", node))]
+            sure = self.guards_decided(node, st, frame)
+            self._raise_log[-1].append((node, sure))
+            return [(st, ("raise", node, sure))]
         if isinstance(node, ast.ImportFrom):
             mod = frame.module._abs(node.level, node.module)
             for a in node.names:
@@ -320,6 +358,9 @@ class FHInterp(Interp):
                 if sym is not None:
                     st.env[a.asname or a.name] = SymV(sym)
             return [(st, ("fall",))]
+        inner = getattr(Interp, "_exec_stmt", None)
+        if inner is not None:
+            return inner(self, node, st, frame)
         return Interp.stmt(self, node, st, frame)
 
     def assign(self, target, val, st, frame):
@@ -374,7 +415,16 @@ class FHInterp(Interp):
         r = self._decide_type_test(test, st, frame)
         if r is not None:
             return r
-        return Interp.decide(self, test, st, frame)
+        r = Interp.decide(self, test, st, frame)
+        if r is None and not isinstance(test, (ast.BoolOp, ast.Compare, ast.UnaryOp)):
+            # truthiness of an integer: non-zero
+            lv = as_lin_val(self.ev(test, st, frame))
+            if lv is not None:
+                if st.facts.entails_cmp(lv, ">=", 1) is not None or st.facts.entails_cmp(lv, "<=", -1) is not None:
+                    return True
+                if st.facts.entails_cmp(lv, "==", 0) is not None:
+                    return False
+        return r
 
     def _decide_type_test(self, test, st, frame):
         """``type(x) in TYPES`` / ``not in`` / ``==`` / ``is``: exact run-time type equality."""
@@ -444,8 +494,21 @@ class FHInterp(Interp):
                     return None
                 out |= sub
             return out
+        if isinstance(v, Alt):
+            return None
         if isinstance(v, Opq) and v.tag.startswith("global:"):
-            return {norm_type(v.tag[7:])}
+            # a module-level name: a class (external or repo) or a constant tuple of classes -- never guessed
+            name = v.tag[7:]
+            sym = self.repo._resolve_abs(name)
+            if sym is None:
+                return None
+            if sym.kind == "ext":
+                return {norm_type(sym.dotted)}
+            if sym.kind == "class":
+                return {"repo:" + sym.target.qual}
+            if sym.kind == "const" and isinstance(sym.target, ast.AST):
+                return self.type_names(sym.target, None, sym.module, 1)
+            return None
         if isinstance(v, Opq) and v.tag.startswith("attr:") and len(v.args) == 1:
             base = self._type_names_of_value(v.args[0])
             if base is not None and len(base) == 1:
@@ -514,6 +577,18 @@ class FHInterp(Interp):
                 self.assume(und[0], polarity, st, frame)
             return
         Interp.assume(self, test, polarity, st, frame)
+        if not isinstance(test, ast.Compare):
+            # truthiness of an integer value: ``if n:`` is n != 0, ``if not n:`` is n == 0
+            lv = as_lin_val(self.ev(test, st, frame))
+            if lv is not None and not lv.is_const():
+                origin = "%s %s at %s:%s" % ("truthy" if polarity else "falsy", ast.unparse(test), frame.module.relpath, test.lineno)
+                if not polarity:
+                    st.facts.add_cmp(lv, "==", 0, origin)
+                elif st.facts.entails_cmp(lv, ">=", 0) is not None:
+                    st.facts.add_cmp(lv, ">=", 1, origin)
+                elif st.facts.entails_cmp(lv, "<=", 0) is not None:
+                    st.facts.add_cmp(lv, "<=", -1, origin)
+            return
         # integer refinement: a != b together with a >= b gives a >= b + 1 (and symmetrically)
         if isinstance(test, ast.Compare) and len(test.ops) == 1 and isinstance(test.ops[0], (ast.Eq, ast.NotEq)):
             ne = isinstance(test.ops[0], ast.NotEq) == polarity
@@ -546,6 +621,46 @@ class FHInterp(Interp):
         if isinstance(base, (Vec, Sel, TV)) and attr == "values":
             return base
         return Interp.getattr(self, base, attr, e, st, frame)
+
+    # -- lists built by ``name.append(x)`` in a for-loop are the comprehension ``[x for ... in it]`` ------------------
+    def _for(self, node, st, frame):
+        self._acc.append((node, {}))
+        try:
+            res = self._for_inner(node, st, frame)
+        finally:
+            _, acc = self._acc.pop()
+        for s, o in res:
+            if o[0] != "fall":
+                continue
+            for name, (val, itv, plain) in acc.items():
+                cur = s.env.get(name)
+                if plain and isinstance(cur, Tup) and not cur.items:
+                    s.env[name] = Opq("listof", [val, itv])
+                else:
+                    s.env[name] = Opq("list-built-in-loop", [val, itv])
+        return res
+
+    def _for_inner(self, node, st, frame):
+        return Interp._for(self, node, st, frame)
+
+    def _note_list_growth(self, call, args, st, frame):
+        """``name.append(v)`` inside the innermost interpreted for-loop, ``name`` bound to a list literal."""
+        f = call.func
+        if not (self._acc and isinstance(f, ast.Attribute) and f.attr in ("append", "extend", "insert")
+                and isinstance(f.value, ast.Name) and isinstance(st.env.get(f.value.id), Tup)):
+            return False
+        loopnode, acc = self._acc[-1]
+        path = astq.enclosing_stmts(loopnode, call)
+        if not path:
+            return False
+        plain = (f.attr == "append" and len(args) == 1 and len(path) == 1 and isinstance(path[0], ast.Expr)
+                 and path[0].value is call and not loopnode.orelse
+                 and not any(isinstance(n, (ast.Break, ast.Continue)) for n in astq.walk_no_nested(loopnode)))
+        val = args[0] if args else Opq("?")
+        if f.value.id in acc and not (_veq(acc[f.value.id][0], val) and acc[f.value.id][2] and plain):
+            plain = False
+        acc[f.value.id] = (val, self.ev(loopnode.iter, st, frame), plain)
+        return True
 
     def ev_ListComp(self, e, st, frame):
         # identity comprehension ``[x for x in it]`` denotes the iterable's elements
@@ -668,6 +783,8 @@ class FHInterp(Interp):
         return None
 
     def _hook(self, interp, frame, call, fname, args, kwargs, st):
+        if self._note_list_growth(call, args, st, frame):
+            return K(None)
         if self.extra_hook is not None:
             r = self.extra_hook(self, frame, call, fname, args, kwargs, st)
             if r is not NotImplemented:
@@ -687,6 +804,9 @@ class FHInterp(Interp):
             return K(r) if r is not None else Opq("isinstance", args)
         if ext == "builtins.type" and len(args) == 1:
             return Opq("type", args)
+        if ext in ("builtins.list", "builtins.tuple", "numpy.array", "numpy.asarray") and len(args) == 1 and not kwargs \
+                and isinstance(args[0], (Rng, Vec, Sel)):
+            return args[0]  # same elements in the same order
         if ext == "builtins.len" and len(args) == 1:
             a = self.undelegate(args[0])
             if isinstance(a, (Sel, TV)):
@@ -761,11 +881,41 @@ BUILTIN_TYPES = {"int", "bool", "float", "str", "list", "tuple", "set", "dict", 
 
 
 # --------------------------------------------------------------------- driver helpers
+class Raised(tuple):
+    """(state, raise node) of a raising trace; ``sure``: explicit ``raise`` reached through decided conditions only."""
+
+    def __new__(cls, st, node, sure, inner=None):
+        t = tuple.__new__(cls, (st, node))
+        t.sure = bool(sure) and node is not None
+        # ``inner``: certain *given* the conditions assumed in the top frame (see FHInterp.path_of for those)
+        t.inner = t.sure if inner is None else (bool(inner) and node is not None)
+        return t
+
+
+class Returned(list):
+    """Returning traces [(state, value)] of a run; ``raises`` are the raising traces of the same run."""
+    raises = ()
+
+
+def rejects_for_sure(raises):
+    """Every raising trace ends at an explicit ``raise`` whose guards were decided from known facts."""
+    return bool(raises) and all(getattr(r, "sure", False) for r in raises)
+
+
+def no_result(ctx, rule, construct, raises, what, loc):
+    """No returning trace for an input that must be accepted: VIOLATION only if the rejection is certain."""
+    if rejects_for_sure(raises):
+        ctx.violation(rule, construct, what, loc)
+    else:
+        ctx.undecided(rule, construct, "no returning path was interpreted and the rejection is not an explicit `raise` under "
+                      "decided conditions (%s)" % what, loc)
+
+
 def run(it, module, fn, args, cls=None, defcls=None, facts=None):
     """Interpret ``fn`` as the top frame; returns (returning [(state, value)], raising [(state, node)])."""
     st = State(facts=facts) if facts is not None else State()
     traces, fst = it.run_function(Frame(module, fn, cls, defcls), args, st)
-    rets, raises = [], []
+    rets, raises = Returned(), []
     for s, o in traces:
         if o[0] == "return":
             v = o[1]
@@ -779,7 +929,8 @@ def run(it, module, fn, args, cls=None, defcls=None, facts=None):
         elif o[0] == "fall":
             rets.append((s, K(None)))
         elif o[0] == "raise":
-            raises.append((s, o[1] if len(o) > 1 else None))
+            raises.append(Raised(s, o[1] if len(o) > 1 else None, o[2] if len(o) > 2 else False, o[3] if len(o) > 3 else None))
+    rets.raises = raises
     return rets, raises, fst
 
 
